@@ -157,6 +157,10 @@ class _Renamer(ast.NodeTransformer):
                                    ast.SetComp, ast.DictComp,
                                    ast.GeneratorExp)):
                     continue
+                if node is fn and (ch in fn.decorator_list or
+                                   ch is fn.args or ch is fn.returns):
+                    # evaluated in the enclosing scope
+                    continue
                 if isinstance(ch, ast.Name) and ch.id in mapping:
                     ch.id = mapping[ch.id]
                 walk(ch)
